@@ -81,12 +81,28 @@ package tan
 //@ ensures result.Term == uf("savedTerm", shardID, replicaID) && result.Vote == uf("savedVote", shardID, replicaID)
 //@ func (s *nodeStates) setState [C04]
 //@ trusted records the hard state in memory
-//@ func isCompactionUpdate [C04]
-//@ trusted classifies the update
+//@ func isCompactionUpdate [C04 C09]
+//@ ensures result1 == (update.Term == compactionFlag && len(update.EntriesToSave) == 0 && update.Snapshot.Index == 0)
+//@ ensures result1 ==> result0 == update.Commit
 //@ func (d *db) makeRoomForWrite [C04]
 //@ trusted log file rotation (switches to a new log file when the current one is full)
-//@ func (d *db) updateIndex [C04]
-//@ trusted in-memory index update
+// C09: the in-memory index of a replica has two views -- `entries` (everything, used by reads) and
+// `currEntries` (what the current log file contributes; this is the part written to the index file
+// and re-read on reopen / rebuilt by crash recovery). Every record must reach BOTH: a compaction
+// record raises compactedTo in both (otherwise removed entries come back after recovery), an entry
+// record ends both at the record's last index.
+//@ func (d *db) updateIndex [C04 C09]
+// (the representation invariant of the index -- sorted, well-formed ranges, the two views in separate
+// arrays -- and the validity of the update are assumed here, not proved at the call sites)
+//@ noframe
+//@ nobounds
+//@ free requires d.mu.nodeStates != nil && d.mu.nodeStates.indexes != nil && !(update.ShardID == 0 && update.ReplicaID == 0)
+//@ free requires forall k raftio.NodeInfo :: k in d.mu.nodeStates.indexes ==> d.mu.nodeStates.indexes[k] != nil && d.mu.nodeStates.indexes[k].entries.sorted() && d.mu.nodeStates.indexes[k].currEntries.sorted() && disjoint(d.mu.nodeStates.indexes[k].entries.entries, d.mu.nodeStates.indexes[k].currEntries.entries)
+//@ free requires pos >= 0 && pos < 4611686018427387904
+//@ free requires len(update.EntriesToSave) > 0 ==> update.EntriesToSave[0].Index > 0 && update.EntriesToSave[0].Index <= update.EntriesToSave[len(update.EntriesToSave) - 1].Index && update.EntriesToSave[len(update.EntriesToSave) - 1].Index < MaxUint64
+//@ ensures mk(raftio.NodeInfo, update.ShardID, update.ReplicaID) in d.mu.nodeStates.indexes
+//@ ensures update.Term == compactionFlag && len(update.EntriesToSave) == 0 && update.Snapshot.Index == 0 ==> d.mu.nodeStates.indexes[mk(raftio.NodeInfo, update.ShardID, update.ReplicaID)].entries.compactedTo >= update.Commit && d.mu.nodeStates.indexes[mk(raftio.NodeInfo, update.ShardID, update.ReplicaID)].currEntries.compactedTo >= update.Commit
+//@ ensures !(update.Term == compactionFlag && update.Snapshot.Index == 0) && len(update.EntriesToSave) > 0 ==> len(d.mu.nodeStates.indexes[mk(raftio.NodeInfo, update.ShardID, update.ReplicaID)].entries.entries) > 0 && len(d.mu.nodeStates.indexes[mk(raftio.NodeInfo, update.ShardID, update.ReplicaID)].currEntries.entries) > 0
 
 //@ func (d *db) sync [C04]
 //@ trusted wraps the log file's Sync
@@ -180,12 +196,12 @@ package tan
 //@ ghostset gReadFailed := old(gReadFailed) || (result != nil && !ufb("invalidrec", obj(result)))
 
 // the copy callback of rebuildLog: a failed write is remembered in herr
-//@ func (d *db) rebuildLog$3 [C10]
+//@ func (d *db) rebuildLog$3 [C10 C04]
 //@ noframe
 //@ nobounds
 //@ invariant gWriteFailed ==> *herr != nil
 
-//@ func (d *db) rebuildLog [C10]
+//@ func (d *db) rebuildLog [C10 C04]
 //@ noframe
 //@ nobounds
 //@ requires !gWriteFailed && !gReadFailed && !gDirDirty && gDirHandles[obj(d.dataDir)]
@@ -209,11 +225,12 @@ package tan
 //@ extern github.com/cockroachdb/errors/oserror IsNotExist
 
 // setCurrentFile leaves the directory dirty: its callers sync the directory
-//@ func setCurrentFile [C10]
+//@ func setCurrentFile [C10 C04]
 //@ noframe
 //@ nobounds
 //@ requires !gWriteFailed && !gReadFailed
 //@ modifies gWriteFailed, gDirDirty, gDataSynced
+//@ ensures result == nil ==> gDataSynced
 
 // a new MANIFEST becomes current only together with a directory sync
 //@ func (vs *versionSet) create [C10]
@@ -223,12 +240,16 @@ package tan
 //@ modifies gWriteFailed, gDirDirty, gDataSynced
 //@ ensures result == nil ==> !gDirDirty
 
-//@ func (vs *versionSet) logAndApply [C10]
+// C04/C10: a version edit (e.g. "log file N now exists") is reported applied only after the MANIFEST
+// record carrying it has been fsynced -- whether or not a new MANIFEST file was started
+//@ func (vs *versionSet) logAndApply [C10 C04]
 //@ noframe
 //@ nobounds
 //@ requires !gWriteFailed && !gReadFailed && !gDirDirty && gDirHandles[obj(dir)] && vs.writing
+//@ requires !gDirHandles[obj(vs.manifestFile)]
 //@ modifies gWriteFailed, gDirDirty, gDataSynced
 //@ ensures result == nil ==> !gDirDirty
+//@ ensures result == nil ==> gDataSynced
 
 //@ func (vs *versionSet) init [C10]
 //@ trusted in-memory initialisation
@@ -242,8 +263,10 @@ package tan
 //@ trusted in-memory lock state (condition variable)
 //@ func (vs *versionSet) createManifest [C10]
 //@ trusted creates and fills a new MANIFEST file (the file is synced by the caller)
-//@ modifies gWriteFailed, gDirDirty
+//@ modifies gWriteFailed, gDirDirty, gDataSynced, vs.manifestFile, vs.manifest
 //@ ghostset gDirDirty := true
+//@ ghostset gDataSynced := false
+//@ ensures err == nil ==> !gDirHandles[obj(vs.manifestFile)]
 //@ ghostset gWriteFailed := old(gWriteFailed) || err != nil
 //@ func (b *bulkVersionEdit) accumulate [C10]
 //@ trusted in-memory
@@ -252,9 +275,11 @@ package tan
 //@ func (v *versionEdit) encode [C10]
 //@ trusted encodes the edit into the MANIFEST record writer
 //@ ghostset gWriteFailed := old(gWriteFailed) || result != nil
+//@ ghostset gDataSynced := false
 //@ func (w *writer) flush [C10]
 //@ trusted flushes the record writer
 //@ ghostset gWriteFailed := old(gWriteFailed) || result != nil
+//@ ghostset gDataSynced := false
 //@ func (w *writer) size [C10]
 //@ trusted in-memory
 
